@@ -42,6 +42,23 @@ def _ann_is_dict_of_set(a):
     return (s.startswith("Dict[") or s.startswith("dict[")) and ("Set[" in s.split(",", 1)[-1] or "set[" in s.split(",", 1)[-1])
 
 
+RUN_DEPENDENT_NAMES = {"hash", "id"}
+RUN_DEPENDENT_ATTRS = {("time", "time"), ("time", "time_ns"), ("time", "monotonic"), ("time", "perf_counter"), ("datetime", "now"), ("datetime", "utcnow"), ("datetime", "today"),
+                       ("date", "today"), ("random", "random"), ("random", "randint"), ("random", "choice"), ("random", "shuffle"), ("random", "sample"),
+                       ("uuid", "uuid1"), ("uuid", "uuid4"), ("os", "urandom"), ("os", "getpid"), ("secrets", "token_hex"), ("secrets", "token_bytes")}
+
+
+def _run_dependent_call(node):
+    f = node.func
+    if isinstance(f, ast.Name):
+        return f.id in RUN_DEPENDENT_NAMES or f.id in ("uuid4", "uuid1", "getpid", "urandom")
+    if isinstance(f, ast.Attribute) and isinstance(f.value, ast.Name):
+        return (f.value.id, f.attr) in RUN_DEPENDENT_ATTRS
+    if isinstance(f, ast.Attribute) and isinstance(f.value, ast.Attribute):       # datetime.datetime.now()
+        return (f.value.attr, f.attr) in RUN_DEPENDENT_ATTRS
+    return False
+
+
 class ModuleScan:
     def __init__(self, path, modname, sanitised):
         self.path, self.modname = path, modname
@@ -190,6 +207,10 @@ class ModuleScan:
             elif isinstance(node, ast.AugAssign) and isinstance(node.op, ast.Add) and is_unordered(node.value) \
                     and not self._expr_is_set(node.target, local_sets, dict_of_sets, self_attrs):
                 site = (ast.unparse(node), False, "")     # list += set
+            elif isinstance(node, ast.Call) and _run_dependent_call(node):
+                # a value that differs from one interpreter run to the next (salted str/bytes hash, object identity, clock,
+                # random numbers, fresh uuids): nothing derived from it may reach emitted text
+                site = (ast.unparse(node), False, "")
             if site is None:
                 continue
             n += 1
